@@ -1,6 +1,7 @@
 package main
 
 import (
+	"strconv"
 	"fmt"
 	"go/constant"
 	"go/parser"
@@ -72,7 +73,9 @@ type Gen struct {
 	allocs   map[string]allocType
 	preds    map[string]*typePredT
 	topCt    *Contract // contract of the function under verification
-	dynCount, dynQueries, dynUnknown int
+	dynCount, dynQueries, dynUnknown, dynUnresolved int
+	dynLast    string // the closure the previous call through a function value was resolved to
+	dynGaveUp  bool
 	fnValues map[string]*ssa.Function // function values taken in this proof context (term -> function)
 	constCell map[string]string // pointer term of a single-assignment local cell -> the value it holds
 	fnResults map[string]*fnResultInfo // function values returned by contracted calls that have an "fnresult" contract
@@ -609,6 +612,8 @@ type Act struct {
 	preEnv  map[ssa.Value]string
 	curReach string
 	firedCuts map[*Cut]bool
+	firedSites map[*CallSite]int
+	lastCall   map[string]*callRec
 	unrollN  int                       // loops of this (inlined) function are unrolled this many times instead of being cut by invariants
 	unr      *unrollCtx                // the loop being unrolled right now
 	skip     map[*ssa.BasicBlock]bool  // blocks already executed by an unrolling
@@ -2023,11 +2028,33 @@ func (a *Act) fireCuts(b *ssa.BasicBlock, ii int, st *State, reach string) {
 	}
 	for _, c := range a.ct.Cuts {
 		anchor := c.Anchor
+		ord := 0
+		if i := strings.LastIndex(anchor, "#"); i > 0 {
+			// `text`#k: the k-th line of the function with that text
+			if k, err := strconv.Atoi(anchor[i+1:]); err == nil {
+				anchor, ord = strings.TrimSpace(anchor[:i]), k
+			}
+		}
 		if len(anchor) > 70 {
 			anchor = anchor[:70] // source lines are compared in the truncated form used in obligation names
 		}
 		if anchor != line || a.firedCuts[c] {
 			continue
+		}
+		if ord > 0 {
+			p := a.pos(instr.Pos())
+			first := a.pos(a.fn.Pos())
+			n := 0
+			for ln := first.Line; ln <= p.Line; ln++ {
+				q := p
+				q.Line = ln
+				if g.eng.sourceLine(q) == line {
+					n++
+				}
+			}
+			if n != ord {
+				continue
+			}
 		}
 		if c.Let != "" {
 			func() {
